@@ -156,13 +156,15 @@ def main(argv):
                 r = kani.run_harness(ov, h["package"], h["mod"] + "::" + h["name"], tgt,
                                      os.path.join(logdir, h["name"] + ".log"),
                                      timeout_s=tmo, mem_gb=h.get("mem_gb", 14),
-                                     extra_args=extra, cbmc_args=h.get("cbmc_args"))
+                                     extra_args=extra, cbmc_args=h.get("cbmc_args"),
+                                     loop_rules=h.get("loop_rules"))
                 if r["verdict"] == "violation":
                     # second run of the failing harness only: ask CBMC for the concrete assignment
                     r2 = kani.run_harness(ov, h["package"], h["mod"] + "::" + h["name"], tgt,
                                           os.path.join(logdir, h["name"] + ".playback.log"),
                                           timeout_s=tmo * 3, mem_gb=h.get("mem_gb", 14),
-                                          extra_args=extra, cbmc_args=h.get("cbmc_args"), playback=True)
+                                          extra_args=extra, cbmc_args=h.get("cbmc_args"), playback=True,
+                                          loop_rules=h.get("loop_rules"))
                     r["playback"] = r2["playback"]
                     r["wall_s"] += r2["wall_s"]
             return r
